@@ -86,7 +86,7 @@ ADJ_TEMPLATES = ['t = {A} if {B} else c', 't = c if {A} else {B}', 't = {A} in {
                  "t = f'{{{A}}}'", "t = f'{{c if {A} else {B}}}'", "t = f'{{{A} in {B}}}'", "t = f'{{not {A}}}'", "t = f'{{c:{{{A}}}}}'", "t = f'{{{A}!r:>{{{B}}}}}'", "t = f'x{{{A}}}y{{{B}}}z'",
                  't = print({A}, {B})', 'global g1\n {A}', 'import x\n {A}']
 PATTERNS = ['1', '-1', '1.5', '1j', '1 + 2j', "'s'", "b's'", 'None', 'True', 'c', '_', 'c.d', '[c, d]', '[c]', '[]', '(c, d)', '[c, *d]', '[*_]', '{1: c}', "{'k': c, **r}", '{}', 'C()', 'C(c)', 'C(c, k=d)', 'C(k=1)',
-            'c | d', '1 | 2 | 3', '(c | d) as e', '[c, d] as e', 'c as d', '(1 | 2) | 3', '[1 | 2, 3]', 'C(1 | 2)', '{1: 2 | 3}', "f.g | 'x'", '*c, d', 'c, d', 'c,']
+            'c | d', '1 | 2 | 3', '(c | d) as e', '[c, d] as e', 'c as d', '(1 | 2) | 3', '(1 as y) | (2 as y)', '[(1 as y) | 2]', '(c.d as y) | 0', 'C((1 as y) | 2)', '[1 | 2, 3]', 'C(1 | 2)', '{1: 2 | 3}', "f.g | 'x'", '*c, d', 'c, d', 'c,']
 
 
 # ---------------------------------------------------------------------- cell construction
@@ -193,7 +193,7 @@ def eval_cell(cell):
                 tree = None
         if tree is None:
             return (label, 'skip', 'not a program')
-        if not representable(tree):
+        if kind == 'slot' and not representable(tree):
             ok = False
             if kind == 'slot':
                 # CPython's unparser itself mis-prints a few cells (a sole parenthesised tuple as with-item): try explicit parentheses
@@ -271,8 +271,7 @@ def report_cells(rep, rule, results, where, group_of, floor):
         else:
             rep.ok(rule, where, g, '%d cells re-parse to the intended tree' % d['ok'], cells=d['ok'], key='%s|%s' % (rule, g))
     rep.count(rule + '_cells', {'evaluated': n_ok + sum(len(d['bad']) for d in groups.values()), 'skipped_not_programs': n_skip})
-    if n_ok < floor:
-        raise AnalysisError('%s: only %d cells evaluated, fewer than the floor %d' % (rule, n_ok, floor))
+    rep.floor(rule + '#cells', floor, n_ok + sum(len(d['bad']) for d in groups.values()))
 
 
 # ---------------------------------------------------------------------- rules
@@ -364,6 +363,8 @@ def static_tables(model, rep, P):
 
 QUICK_CHILD = ['Name', 'Int', 'Str', 'Tuple', 'Tuple1', 'Tuple0', 'StarTuple', 'List', 'Dict', 'GeneratorExp', 'NamedExpr', 'Yield', 'YieldFrom', 'Await', 'Lambda', 'IfExp', 'Or', 'And', 'Not',
                'Compare', 'NotIn', 'BitOr', 'BitAnd', 'LShift', 'Add', 'Mult', 'USub', 'Pow', 'NegInt', 'Call', 'Attribute', 'Starred', 'JoinedStr', 'Slice', 'DictComp', 'Set']
+OPERATOR_SLOTS = ['BinOp', 'BoolOp', 'Compare', 'Not.', 'USub.', 'Invert.', 'Await.', 'IfExp', 'In.', 'IsNot.', 'Starred', 'Call.star', 'Dict.starstar', 'Attribute.value', 'Subscript.value', 'Call.func']
+OPERATOR_CHILD = ['BitXor', 'RShift', 'Sub', 'Div', 'Mod', 'FloorDiv', 'MatMult', 'UAdd', 'Invert', 'In', 'Is', 'IsNot', 'Chain', 'Float']
 QUICK_STMTS = ['Assign', 'Expr', 'ExprStr', 'Pass', 'Import', 'Global', 'Return', 'YieldStmt', 'For', 'WhileElse', 'IfElif', 'With', 'TryFull', 'FunctionDef', 'ClassDef', 'Decorated', 'Match', 'NestedIf', 'TypeAlias']
 
 
@@ -371,7 +372,10 @@ def all_cells(tier):
     cells = []
     quick = tier != 'thorough'
     for sname, tpl in SLOTS.items():
-        for cname in (QUICK_CHILD if quick else CHILD):
+        children = list(CHILD) if not quick else list(QUICK_CHILD)
+        if quick and any(k in sname for k in OPERATOR_SLOTS):
+            children += [c for c in OPERATOR_CHILD if c not in children]
+        for cname in children:
             cells.append(('slot', 'slot %s <- %s' % (sname, cname), (tpl, cname)))
     stm = {k: v for k, v in STMTS.items() if v and (not quick or k in QUICK_STMTS)}
     for (a, sa), (b, sb_) in itertools.product(stm.items(), repeat=2):
